@@ -186,6 +186,21 @@ func c18Program(r *gen.Rand, seen map[uintptr]int) (digests int, steps []string,
 			if carved != nil && s == 0 && total <= len(carved) {
 				data = carved[:total] // the message is carved from the same buffer, right behind the key
 			}
+			if r.Chance(1, 4) {
+				// a message that is given up: bytes are written and the object is reset with no Sum in between (once or
+				// twice in a row); what follows is a new message under the same key
+				for k := 1 + r.Intn(2); k > 0; k-- {
+					junk := r.Bytes(r.PickInt([]int{1, 3, 15, 16, 17, 63, 64, 65, 1 + r.Intn(300)}))
+					for off := 0; off < len(junk); {
+						n := 1 + r.Intn(len(junk)-off)
+						_, _ = h.Write(junk[off : off+n])
+						off += n
+					}
+					h.Reset()
+					steps = append(steps, fmt.Sprintf("write(%dB) abandoned ; reset", len(junk)))
+				}
+				msg = msg[:0]
+			}
 			if r.Chance(1, 3) {
 				_, _ = h.Write(nil) // an empty chunk is a legal write and changes nothing
 			}
